@@ -293,9 +293,25 @@ def r3(ctx):
         data = f.get("data")
         istext = d.lo == d.hi == 1
         kstr = o.run.kinds.get(Sym("data").key())
-        if istext and kstr == "str":
-            ok = ok and isinstance(data, App) and data.op == "m:encode" and data.args[0] == Sym("data") and \
+        asked = any(x.text.startswith("isinstance(<data>, builtins.str") for x in o.decisions)
+        if kstr is None and not asked and not istext and data == Sym("data") and not (o.run.facts.get(Sym("data").key()) and o.run.facts[Sym("data").key()].eq == C(None)):
+            # the path never asked whether the payload is a str: the str case is covered by it, un-encoded
+            ctx.ob(f"_abnf:ABNF.create_frame:str-payload-utf8:{d.lo}-{d.hi}", False,
+                   f"create_frame(<str>, opcode in [{d.lo}, {d.hi}] other than TEXT) keeps a str payload as it is: ABNF.mask then encodes it as latin-1 and the length field counts "
+                   f"characters -- 'é' goes out as e9 instead of c3 a9, text beyond U+00FF raises UnicodeEncodeError (send_frame's docstring builds CONT frames from str)",
+                   ctx.index.loc(ctx.index.func("_abnf:ABNF.create_frame").node), {"path": path_text(o)})
+            continue
+        if kstr == "str":
+            # text handed over as str is written as its UTF-8 bytes, whatever the opcode (a CONT frame continuing a text
+            # message, as in send_frame's own docstring, carries text too): otherwise masking falls back to latin-1
+            okt = isinstance(data, App) and data.op == "m:encode" and data.args[0] == Sym("data") and \
                 data.args[1].v.lower().replace("_", "-") in ("utf-8", "utf8")
+            if not okt and not istext:
+                ctx.ob(f"_abnf:ABNF.create_frame:str-payload-utf8:{d.lo}-{d.hi}", False,
+                       f"create_frame(<str>, opcode in [{d.lo}, {d.hi}]) keeps the payload as str ({data!r}): ABNF.mask then encodes it as latin-1 and the length field counts "
+                       f"characters -- 'é' goes out as e9 instead of c3 a9, and text beyond U+00FF raises UnicodeEncodeError", "", {"path": path_text(o)})
+                continue
+            ok = ok and okt
         elif (o.run.facts.get(Sym("data").key()) and o.run.facts[Sym("data").key()].eq == C(None)):
             ok = ok and data == C("")
         else:
